@@ -48,6 +48,9 @@ class World:
         if scheme in CHEAP:
             h = h.using(rounds=CHEAP[scheme])
         self.right, self.wrong = "right pw \xe9", "wrong"
+        if scheme in ("plaintext", "ldap_plaintext", "roundup_plaintext"):
+            # the stored value IS the password: white space at either end is part of it
+            self.right = rnd.choice(["right pw \xe9", " right pw \xe9", "right pw \xe9 ", "\tright pw \xe9\xa0"])
         self.H = h.hash(self.right)
         dis = ["django_disabled" if k == "django" else "unix_disabled" for k in kind]
         self.kw = {"unix_disabled__marker": "*"} if "unix2" in kind else {}
